@@ -60,6 +60,12 @@ func (c08) Generate(c *Ctx) []any {
 		}
 		out = append(out, t)
 	}
+	// consumer level: settings of one output file must not reach the output files of sibling packages that
+	// share its template (full CLI runs; the pipeline harness judges them)
+	for i := 0; i < c.Budget(8, 40); i++ {
+		pin := genPipeFault(c.Rng, "C08", i, []string{"mixed-require-open", "mixed-require-strict"}[i%2])
+		out = append(out, pin)
+	}
 	return out
 }
 
